@@ -46,76 +46,79 @@ impl<'a> StringLexer<'a> {
 
     /// (mostly just used by Iterator, but might be useful)
     pub fn next_lexeme(&mut self) -> Result<Option<u8>> {
-        let c = self.next_byte()?;
-        match c {
-            b'\\' => {
-                let c = self.next_byte()?;
-                Ok(
-                match c {
-                    b'n' => Some(b'\n'),
-                    b'r' => Some(b'\r'),
-                    b't' => Some(b'\t'),
-                    b'b' => Some(b'\x08'),
-                    b'f' => Some(b'\x0c'),
-                    b'(' => Some(b'('),
-                    b')' => Some(b')'),
-                    b'\n' => {
-                        // ignore end-of-line marker
-                        self.next_lexeme()?
-                    }
-                    b'\r' => {
-                        // ignore end-of-line marker
-                        if let Ok(b'\n') = self.peek_byte() {
-                            let _ = self.next_byte();
+        // a loop, not a recursion: a string may hold any number of line continuations in a row
+        loop {
+            let c = self.next_byte()?;
+            return match c {
+                b'\\' => {
+                    let c = self.next_byte()?;
+                    Ok(
+                    match c {
+                        b'n' => Some(b'\n'),
+                        b'r' => Some(b'\r'),
+                        b't' => Some(b'\t'),
+                        b'b' => Some(b'\x08'),
+                        b'f' => Some(b'\x0c'),
+                        b'(' => Some(b'('),
+                        b')' => Some(b')'),
+                        b'\n' => {
+                            // ignore end-of-line marker
+                            continue
                         }
-                        self.next_lexeme()?
-                    }
-                    b'\\' => Some(b'\\'),
-
-                    b'0'..=b'7' => {
-                        let mut char_code: u16 = (c - b'0') as u16;
-
-                        // A character code: 1-3 octal digits.
-                        for _ in 0..2 {
-                            let c = self.peek_byte()?;
-                            if (b'0'..=b'7').contains(&c) {
-                                self.next_byte()?;
-                                char_code = char_code * 8 + (c - b'0') as u16;
-                            } else {
-                                break;
+                        b'\r' => {
+                            // ignore end-of-line marker
+                            if let Ok(b'\n') = self.peek_byte() {
+                                let _ = self.next_byte();
                             }
+                            continue
                         }
-                        Some(char_code as u8)
+                        b'\\' => Some(b'\\'),
+
+                        b'0'..=b'7' => {
+                            let mut char_code: u16 = (c - b'0') as u16;
+
+                            // A character code: 1-3 octal digits.
+                            for _ in 0..2 {
+                                let c = self.peek_byte()?;
+                                if (b'0'..=b'7').contains(&c) {
+                                    self.next_byte()?;
+                                    char_code = char_code * 8 + (c - b'0') as u16;
+                                } else {
+                                    break;
+                                }
+                            }
+                            Some(char_code as u8)
+                        }
+                        // not an escape sequence: the backslash is ignored
+                        c => Some(c),
                     }
-                    // not an escape sequence: the backslash is ignored
-                    c => Some(c),
-                }
-                )
-            },
+                    )
+                },
 
-            b'(' => {
-                self.nested += 1;
-                Ok(Some(b'('))
-            },
-            b')' => {
-                self.nested -= 1;
-                if self.nested < 0 {
-                    Ok(None)
-                } else {
-                    Ok(Some(b')'))
-                }
-            },
+                b'(' => {
+                    self.nested += 1;
+                    Ok(Some(b'('))
+                },
+                b')' => {
+                    self.nested -= 1;
+                    if self.nested < 0 {
+                        Ok(None)
+                    } else {
+                        Ok(Some(b')'))
+                    }
+                },
 
-            // an unescaped end-of-line marker (CR, LF or CR LF) stands for one LF
-            b'\r' => {
-                if let Ok(b'\n') = self.peek_byte() {
-                    let _ = self.next_byte();
-                }
-                Ok(Some(b'\n'))
-            },
+                // an unescaped end-of-line marker (CR, LF or CR LF) stands for one LF
+                b'\r' => {
+                    if let Ok(b'\n') = self.peek_byte() {
+                        let _ = self.next_byte();
+                    }
+                    Ok(Some(b'\n'))
+                },
 
-            c => Ok(Some(c))
+                c => Ok(Some(c))
 
+            };
         }
     }
 
